@@ -240,7 +240,7 @@ func opClass(op string) string {
 
 func init() {
 	checks["C18"] = func(tier string) int {
-		run := ev.NewRun("C18", tier, "model_checking")
+		run := newRun("C18", tier, "model_checking")
 		cfgs := []elConfig{{10 * time.Second, 20, 5}, {10 * time.Second, 8, 5}, {10 * time.Second, 30, 5}, {10 * time.Second, 1000, 100}, {10 * time.Second, 1, 5}}
 		depth := 5
 		cap := 400000
